@@ -34,6 +34,57 @@ def theta_grid(fam):
     return [-18.2, -7.0, -1.0, -0.05, -5e-4, 1e-5, 3e-4, 0.05, 1.0, 4.5, 18.2]
 
 
+_SRC_CONST = {}
+
+
+def source_constants(fam):
+    """Numeric literals of the family's source file and of the shared bivariate modules (AST of the
+    CURRENT /repo; not compared with anything): a special case keyed on a literal (`theta == 3`,
+    `theta > 15.9`) manifests only at/next to that literal, so the literals are added to the theta
+    grids.  Returns admissible thetas derived from them, without those already in theta_grid."""
+    if fam in _SRC_CONST:
+        return _SRC_CONST[fam]
+    import ast
+    import os
+    vals = set()
+    for rel in ('copulas/bivariate/%s.py' % fam, 'copulas/bivariate/base.py', 'copulas/bivariate/utils.py',
+                'copulas/bivariate/__init__.py'):
+        try:
+            tree = ast.parse(open(os.path.join(vc.REPO, rel)).read())
+        except Exception:  # noqa
+            continue
+        for node in ast.walk(tree):
+            if isinstance(node, ast.Constant) and type(node.value) in (int, float):
+                v = float(node.value)
+                if math.isfinite(v) and 1e-6 <= abs(v) <= 40:
+                    vals.add(abs(v))
+    lo, hi = {'clayton': (1e-3, 20.0), 'gumbel': (1.0, 20.0), 'frank': (-30.0, 30.0)}[fam]
+    base = set(theta_grid(fam))
+
+    def admissible(ts):
+        sg = (1.0, -1.0) if fam == 'frank' else (1.0,)
+        return sorted({s_ * t for t in ts for s_ in sg
+                       if lo <= s_ * t <= hi and abs(t) >= 1e-6 and s_ * t not in base})
+
+    exact = admissible({t for v in vals for t in (v, v + 1.0, 1.0 / v)})
+    near = [t for t in admissible({t for v in vals for t in (math.nextafter(v, math.inf), math.nextafter(v, 0.0))})
+            if t not in exact]
+
+    def thin(xs, k):
+        if len(xs) <= k:
+            return xs
+        step = len(xs) / float(k)
+        return [xs[int(i * step)] for i in range(k)]
+    out = thin(exact, 24) + thin(near, 8)
+    _SRC_CONST[fam] = out
+    return out
+
+
+def theta_all(fam):
+    """theta_grid + the thetas derived from literals in the current source"""
+    return theta_grid(fam) + source_constants(fam)
+
+
 def theta_random(fam, rng):
     if fam == 'clayton':
         return math.exp(rng.uniform(math.log(0.01), math.log(8.0)))
